@@ -190,6 +190,10 @@ def _feeds(fn, local):
 
 def run_one(ck, prog):
     cg = prog.callgraph()
+    # C07.4 the strings handed over by the kernel are measured by strlen: the length it answers is the position of the first NUL
+    # (a scan that gives up after some bound reports long arguments / values cut short)
+    from .c10 import check_scanners
+    check_scanners(ck, prog, "C07.4", names=(("rusl::string::strlen::strlen", False),))
     # ---- C07.1 exact-name match -------------------------------------------------------------------------------------
     for nm, matcher, keylen in (("tiny_std::env::var", "match_up_to_str", lambda e: canon(e) in ("len(p1)",)),
                                 ("tiny_std::env::var_unix", "match_up_to", None)):
